@@ -38,8 +38,10 @@ func (u *unionInstanceStrategy) getRequiredValues(m *MethodEvaluator) (
 
 	var unionVariants []base.T
 
-	switch m.objectT.ToString() {
-	case "union":
+	// the receiver itself is a union value, or a variable holding one
+	// (decided by its type: a local may be called "union")
+	switch m.objectT.IsUnionType() {
+	case true:
 		unionVariants = m.objectT.GetVariants()
 
 	default:
